@@ -96,8 +96,10 @@ def kit_deps(vfile, seen=None):
         return seen
     seen.add(vfile)
     src = strip_comments(open(vfile, encoding="utf8", errors="replace").read())
-    for m in re.finditer(r"(?:From\s+Kit\s+)?Require\s+(?:Import\s+|Export\s+)?([^.]*(?:\.[A-Za-z_][^.\s]*)*)\.(?=\s|$)", src):
-        for tok in m.group(1).split():
+    for m in re.finditer(r"(?:From\s+(\w+)\s+)?Require\s+(?:Import\b|Export\b)?\s*(.*?)\.(?=\s|$)", src, re.S):
+        if m.group(1) not in (None, "Kit"):
+            continue
+        for tok in m.group(2).split():
             tok = tok.strip()
             if tok.startswith("Kit."):
                 tok = tok[4:]
